@@ -53,8 +53,13 @@ UNIT = {
         lx('is_next_whitespace', ret='r', requires=[('wf', WFS)], ensures=nxt('g_whitespace')),
         lx('is_next_name_part_char', ret='r', requires=[('wf', WFS)], ensures=nxt('g_name_part')),
         lx('is_next_additional_name_symbol', ret='r', requires=[('wf', WFS)], ensures=nxt('g_additional_name_symbol')),
-        lx('is_next_character', ret='r', loops=1, requires=[('wf', WFS), ('offset', 'offset <= self.input@.len()')],
-           loop_specs={0: {'invariant': [('wf', WFS), ('offset', 'offset <= self.input@.len()')], 'decreases': 'self.input@.len() - offset'}}),
+        lx('comment_length', loops=2, ret='r',
+           requires=[('wf', WFS), ('in_input', 'self.position + offset <= self.input@.len()')],
+           ensures=[('within_the_input_and_not_empty', 'r is Some ==> 2 <= r->Some_0 && self.position + offset + r->Some_0 <= self.input@.len()')],
+           loop_specs={0: {'invariant': [('wf', WFS), ('progress', '2 <= length && self.position + offset + length <= self.input@.len()')], 'decreases': 'self.input@.len() - (self.position + offset + length)'},
+                       1: {'invariant': [('wf', WFS), ('progress', '2 <= length && self.position + offset + length <= self.input@.len()')], 'decreases': 'self.input@.len() - (self.position + offset + length)'}}),
+        lx('is_next_character', ret='r', loops=1, requires=[('wf', WFS), ('offset', 'self.position + offset <= self.input@.len()')],
+           loop_specs={0: {'invariant': [('wf', WFS), ('offset', 'self.position + offset <= self.input@.len()')], 'decreases': 'self.input@.len() - (self.position + offset)'}}),
         lx('consume_name', ret='r', loops=3, attrs='#[verifier::exec_allows_no_decreases_clause]\n#[verifier::rlimit(200)]',
            requires=[('wf', WF0), ('at_name_start', 'old(self).position < old(self).input@.len() ==> g_name_part(old(self).input@[old(self).position as int])')],
            body_prefix='proof { reveal_strlit(""); }\nbroadcast use vstd::std_specs::hash::group_hash_axioms;\nbroadcast use group_string_keys;\nproof { axiom_string_key_model(); }',
